@@ -97,11 +97,13 @@ def handleRoundtrip (args : List String) : String :=
       | none, none => "ok-without-record"
   | _ => "bad-args"
 
-/-- valhdr <opts> <verId> <hdr> <oracles>: validateHeader alone -/
+/-- valhdr <opts> <ver> <hdr> <oracles>: validateHeader alone (names go through Add, as in the implementation) -/
 def handleValHdr (args : List String) : String :=
   match args with
-  | [o, vid, hdr, orc] =>
-    match validateHeader (parseOpts o) (parseOracles orc) (parseNat vid) ⟨parseFieldsArg hdr, []⟩ with
+  | [o, ver, hdr, orc] =>
+    let vid := if ver == "1.0" then 1 else if ver == "1.1" then 2 else 0
+    let h : Fields := (parseFieldsArg hdr).foldl (fun acc nv => acc.add nv.1 nv.2) []
+    match validateHeader (parseOpts o) (parseOracles orc) vid ⟨h, []⟩ with
     | (.ok rt, st) => s!"ok rt={rt} fnd={showTags st.fnd}"
     | (.error t, st) => s!"err {tagStr t} fnd={showTags st.fnd}"
   | _ => "bad-args"
